@@ -16,7 +16,7 @@ def run(ctx):
         "zero-swap probability) x 1-3 process lifetimes with generated completion orders, clean stops and kills; the real "
         "scheduler/REPEX_state/run_md run in forks with a deterministic runner. After every pick and every treat_output the "
         "in-flight model is compared with the lock marks, slots, weights, engine occupation and worker directories. "
-        "Non-trivial: history with >=2 jobs in flight at some event and >=1 accepted move and >=1 zero-swap job. Distinct = digest of the case. Additionally an exhaustive in-memory exploration (checks/enumsys.py) of small systems (3-4 interfaces; thorough: up to 5): every completion order x every move outcome from {reject, accept-minimal, accept-far} x every result of the scheduler's random choices, run to closure of the reachable (weight matrix, busy marks, in-flight jobs) states with the same invariants."
+        "Non-trivial: history with >=2 jobs in flight at some event and >=1 accepted move and >=1 zero-swap job. Distinct = digest of the case. Additionally an exhaustive in-memory exploration (checks/enumsys.py) of small systems (3-4 interfaces; thorough: up to 5): every completion order x every move outcome from {reject, accept-minimal, accept-far} x every result of the scheduler's random choices, run to closure of the reachable (weight matrix, busy marks, in-flight jobs) states with the same invariants; in every state also a kill + restart from the last restart record (the restarted run's picks are enumerated too and its states join the exploration)."
     )
     ctx.assumptions = ["lazy execution at completion time is equivalent to concurrent execution because workers share nothing (that is what this check verifies)"]
     from checks import enumsys
